@@ -37,10 +37,33 @@ def unitary_class(rng, n):
     """(class name, matrix, valid?) valid: True / False (must raise) ."""
     classes = ["haar", "haar", "haar", "real_orthogonal", "permutation", "identity", "diag_phases", "block_diag",
                "exact_zeros", "antiidentity", "near_valid", "perm_phases", "invalid_nonunitary", "invalid_scaled",
-               "float_orthogonal", "float_signs", "float_signed_permutation", "int_signed_permutation"]
+               "float_orthogonal", "float_signs", "float_signed_permutation", "int_signed_permutation", "weak_coupling",
+               "weak_coupling"]
     if n == 1:
         classes = ["haar", "identity", "diag_phases", "invalid_scaled", "float_signs", "int_signed_permutation"]
     c = str(rng.choice(classes))
+    if c == "weak_coupling":
+        # a structured unitary (identity / permutation / block diagonal / diagonal phases) times exp(i eps H) with a coupling
+        # far below every tolerance but not zero: entries of modulus 1e-11 ... 1e-8 where the meshes test for zeros
+        from scipy.linalg import expm
+
+        base = str(rng.choice(["identity", "permutation", "block", "phases"]))
+        if base == "identity":
+            U0 = np.eye(n, dtype=complex)
+        elif base == "permutation":
+            U0 = np.eye(n, dtype=complex)[rng.permutation(n)]
+        elif base == "phases":
+            U0 = np.diag(np.exp(1j * rng.uniform(0, 2 * PI, n)))
+        else:
+            k = max(1, n // 2)
+            U0 = np.eye(n, dtype=complex)
+            U0[:k, :k] = haar(rng, k)
+            if n - k > 0:
+                U0[k:, k:] = haar(rng, n - k)
+        H = rng.normal(size=(n, n)) + 1j * rng.normal(size=(n, n))
+        H = (H + H.conj().T) / 2
+        eps = float(rng.choice([1e-8, 3e-9, 1e-9, 2e-10, 1e-11]))
+        return c, U0 @ expm(1j * eps * H), True
     if c == "int_signed_permutation":
         # integer *dtype* (a hand-typed permutation / sign matrix)
         return c, (np.eye(n, dtype=int)[rng.permutation(n)] * rng.choice([-1, 1], n)).astype(int), True
